@@ -47,6 +47,10 @@ def evaluate(repo, cname, member, entry):
                 evaluate.last_states.append((v.v, o.state))
             else:
                 res.add(("value", "?"))
+    if getattr(it, "fuzzy", None):
+        # the query contains a construct the evaluation cannot follow (a call it cannot resolve, ...): whatever
+        # outcomes were found, others are possible
+        res.add(("value", "?"))
     return rel, c, f, res
 
 
